@@ -449,9 +449,15 @@ def rule_rejected_rows_leave_no_key(ctx):
     decide_kinds(ctx, "O5.7", "validate_row(two IsUnique checks)", VALIDATOR + ".validate_row", cell, min_cells=20)
 
 
+def rule_rows_refused_by_the_row_writer(ctx):
+    """O5.9: "an earlier ACCEPTED row": a row the row writer refuses after validate_row() (a character the target's
+    encoding cannot represent) was not accepted, so it must not be registered by the checks (C14's table)."""
+    protocol.writer_refusal_after_checks_table(ctx, "O5.9")
+
+
 def rule_every_run_is_finished(ctx):
     """O5.8: "finishing the validation fails if and only if ...": every Reader / Writer the package creates is closed."""
     protocol.rule_validators_are_closed(ctx, "O5.8")
 
 
-RULES = [rule_is_unique, rule_distinct_count, rule_reset_restores_fresh_state, rule_only_accepted_rows, rule_reset_completeness, rule_cleanup_keeps_bookkeeping, rule_same_data_set_only, rule_rows_are_numbered_physically, rule_rejected_rows_leave_no_key, rule_every_run_is_finished, rule_module_state]
+RULES = [rule_is_unique, rule_distinct_count, rule_reset_restores_fresh_state, rule_only_accepted_rows, rule_reset_completeness, rule_cleanup_keeps_bookkeeping, rule_same_data_set_only, rule_rows_are_numbered_physically, rule_rejected_rows_leave_no_key, rule_rows_refused_by_the_row_writer, rule_every_run_is_finished, rule_module_state]
